@@ -476,6 +476,41 @@ func (r *rng) raw() string {
 // denseCtrl: an invalid document — a raw control character inside a string — surrounded by enough structurals
 // that the string lies in a stage-1 call that ends because an index buffer filled up, or in an earlier
 // block than the last one.
+// longStrCtrl: a raw control character (or none) somewhere inside a string that spans several 64-byte blocks, so
+// that whole blocks lie inside the string without containing a quote; also with escaped quotes and backslash runs
+// in the neighbourhood.
+func (r *rng) longStrCtrl() string {
+	n := 70 + r.intn(400)
+	body := make([]byte, n)
+	for i := range body {
+		body[i] = byte('a' + r.intn(26))
+	}
+	for k := r.intn(4); k > 0; k-- { // escaped quotes / backslashes, two bytes each
+		i := r.intn(n - 1)
+		body[i], body[i+1] = '\\', []byte{'"', '\\', 'n', '/'}[r.intn(4)]
+	}
+	if r.chance(5, 6) {
+		i := r.intn(n)
+		if i > 0 && body[i-1] == '\\' {
+			i--
+		}
+		if i+1 < n && body[i] == '\\' {
+			body[i+1] = 'x' // keep the text otherwise well formed
+			body[i] = 'y'
+		}
+		body[i] = byte(r.intn(0x20))
+	}
+	pre := strings.Repeat(" ", r.intn(70))
+	switch r.intn(3) {
+	case 0:
+		return "[" + pre + "\"" + string(body) + "\"]"
+	case 1:
+		return "{\"k\":" + pre + "\"" + string(body) + "\",\"z\":1}"
+	default:
+		return "{" + pre + "\"" + string(body) + "\":[1,2]}"
+	}
+}
+
 func (r *rng) denseCtrl() string {
 	n := 40 + r.intn(200)
 	if r.chance(1, 2) {
